@@ -4,7 +4,7 @@
 From Coq Require Import ZArith List Bool Lia.
 From Coq Require String. Import String.StringSyntax.
 From DV Require Import Model.PyPrims Model.C13Model Model.C13GenPrims Gen.Routes Proofs.C13GenStmts
-  Proofs.C13GenReader.
+  Proofs.C13GenObjects Proofs.C13GenWf Proofs.C13GenTaxa Proofs.C13GenReader.
 Import ListNotations.
 
 Section S.
@@ -69,6 +69,12 @@ Lemma ybind_ext : forall X Y (a : yres T X) (f f' : X -> yres T Y),
   (forall x, f x = f' x) -> ybind T a f = ybind T a f'.
 Proof. intros X Y [out [x| |]] f f' H; try reflexivity. rewrite !ybind_ok, H. reflexivity. Qed.
 
+Lemma ybind_ext_at : forall X Y (a : yres T X) (f f' : X -> yres T Y),
+  (forall out x, a = (out, Ok x) -> f x = f' x) -> ybind T a f = ybind T a f'.
+Proof. intros X Y [out [x| |]] f f' H; try reflexivity. rewrite !ybind_ok, (H out x eq_refl). reflexivity. Qed.
+
+Notation wfs := (wfs c).
+
 (* ---- the `while True:` over consecutive TREE statements: `yield tree` after each ---- *)
 Lemma g_ytree_loop_eq : forall g tls reg ns fuel k token m,
   g_yield_from_trees_block_loop2 T lower upper parse_tree set_label add_comments fuel None
@@ -115,11 +121,13 @@ Notation GYL := (g_yield_from_trees_block_loop1 T lower upper parse_tree set_lab
 Notation MYL := (y_trees_loop T lower upper parse_tree set_label add_comments true c).
 
 Lemma g_ytrees_loop_eq : forall tls reg fuel k g token link nsO mapO title,
-  map_ok nsO mapO ->
+  map_ok nsO mapO -> wfs k g -> nsok k nsO ->
   ymap (fun r => fst (fst (fst (fst (fst r))))) (GYL fuel (mkRs k g tls reg) token link nsO mapO title)
   = ymap (fun r => mkRs (fst r) (snd r) tls reg) (MYL fuel k g (mkLoc token link nsO (option_map snd mapO) title)).
 Proof.
-  intros tls reg; induction fuel as [|f IH]; intros k g token link nsO mapO title MO; [reflexivity|].
+  intros tls reg; induction fuel as [|f IH]; intros k g token link nsO mapO title MO WF NO; [reflexivity|].
+  assert (WZ : forall kk gg z, wfs kk gg -> wfs (set_z kk z) gg)
+    by (intros kk gg z0 Hw; apply (wfs_mono c kk gg); [exact Hw | apply Nat.le_refl | reflexivity]).
   cbn [g_yield_from_trees_block_loop1 y_trees_loop].
   unfold tk_is_eof. sim. rewrite guard_eq. cbn [l_token].
   destruct (loop_guard (k_z k) token); [|reflexivity].
@@ -127,6 +135,8 @@ Proof.
   destruct (next_token_ucase upper (k_z k)) as [z1| |]; sim; try reflexivity.
   rewrite (ybind_lift _ _ (Ok (z_cur z1, mkRs (set_z k z1) g tls reg))), (ybind_lift _ _ (Ok (set_z k z1))).
   cbv beta iota zeta.
+  assert (W1 : wfs (set_z k z1) g) by (apply WZ; exact WF).
+  assert (N1 : nsok (set_z k z1) nsO) by exact NO.
   change (k_z (set_z k z1)) with z1.
   change (o_eq (z_cur z1) (s2z "LINK")) with (otok_is (z_cur z1) K_LINK).
   change (o_eq (z_cur z1) (s2z "TITLE")) with (otok_is (z_cur z1) K_TITLE).
@@ -139,27 +149,33 @@ Proof.
     destruct (g_parse_link_statement T upper (S f) (mkRs (set_z k z1) g tls reg)) as [[l2 s']| |];
       destruct (parse_link upper true (S f) z1) as [[lt z2]| |]; sim; intros L; try discriminate L;
       try (injection L as ->; reflexivity); try reflexivity.
-    injection L as -> ->. ynorm. cbn [l_ns l_map l_title]. apply IH. exact MO. }
+    injection L as -> ->. ynorm. cbn [l_ns l_map l_title]. apply IH; [exact MO | apply WZ; exact W1 | exact N1]. }
   destruct (otok_is (z_cur z1) K_TITLE).
   { ynorm. rewrite g_parse_title_statement_eq. sim. change (k_z (set_z k z1)) with z1.
     destruct (parse_title upper z1) as [[bt z2]| |]; sim; try reflexivity. ynorm.
-    cbn [l_ns l_map l_title l_link]. apply IH. exact MO. }
+    cbn [l_ns l_map l_title l_link]. apply IH; [exact MO | apply WZ; exact W1 | exact N1]. }
   destruct (otok_is (z_cur z1) K_TRANSLATE).
   { rewrite !ybind_assoc.
     rewrite (yget_ns_eq (S f) (set_z k z1) g tls reg link nsO _ _ token (option_map snd mapO) title).
     rewrite !ybind_lift.
     destruct (loc_get_ns upper c (set_z k z1) g (mkLoc token link nsO (option_map snd mapO) title))
-      as [[[ns k2] g2]| |]; sim; try reflexivity. ynorm.
+      as [[[ns k2] g2]| |] eqn:GN; sim; try reflexivity. ynorm.
+    destruct (loc_get_ns_wf upper c (set_z k z1) g (mkLoc token link nsO (option_map snd mapO) title) ns k2 g2 W1 N1 GN) as [W2 [V2 _]].
+    rewrite (g_parse_translate_eq_at T lower k2 g2 tls reg ns V2 (S f)).
     unfold ifc_parse_translate. sim. cbn [on_get].
-    destruct (parse_translate lower (S f) k2 ns) as [[m k3]| |]; sim; try reflexivity. ynorm.
+    destruct (parse_translate lower (S f) k2 ns) as [[m k3]| |] eqn:PT; sim; try reflexivity. ynorm.
+    apply parse_translate_len in PT.
     cbn [l_link l_title]. apply (IH k3 g2 (Some []) link (Some ns) (Some (ns, m)) title).
-    reflexivity. }
+    - reflexivity.
+    - apply (wfs_mono c k2 g2); [exact W2 | rewrite PT; apply Nat.le_refl | reflexivity].
+    - apply nsok_some. rewrite PT. exact V2. }
   destruct (otok_is (z_cur z1) K_TREE).
   { rewrite !ybind_assoc.
     rewrite (yget_ns_eq (S f) (set_z k z1) g tls reg link nsO _ _ token (option_map snd mapO) title).
     rewrite !ybind_lift.
     destruct (loc_get_ns upper c (set_z k z1) g (mkLoc token link nsO (option_map snd mapO) title))
       as [[[ns k2] g2]| |] eqn:GN; sim; try reflexivity.
+    destruct (loc_get_ns_wf upper c (set_z k z1) g (mkLoc token link nsO (option_map snd mapO) title) ns k2 g2 W1 N1 GN) as [W2 [V2 _]].
     cbn [l_map l_title l_link].
     assert (MM : exists m, (mapO = None \/ mapO = Some (ns, m)) /\
        (match option_map snd mapO with Some m => m | None => new_mapper lower (ns_taxa_at k2 ns) true end) = m).
@@ -171,10 +187,13 @@ Proof.
     destruct M0 as [-> | ->]; cbn [om_is_none]; ynorm;
       [rewrite g_get_taxon_symbol_mapper_eq; unfold ifc_get_taxon_symbol_mapper; ynorm; sim; cbn [on_get]; cbn [option_map] in M1; rewrite M1|];
       unfold tk_pull_comments, pull_comments; sim; ynorm;
-      rewrite g_ytree_loop_eq, ybind_ymap, !ymap_ybind; apply ybind_ext; intros [[k6 m1] tk]; ynorm;
-      apply (IH k6 g2 _ link (Some ns) (Some (ns, m1)) title); reflexivity. }
+      rewrite g_ytree_loop_eq, ybind_ymap, !ymap_ybind; apply ybind_ext_at; intros out6 [[k6 m1] tk] RT; ynorm;
+      apply (y_tree_loop_len T upper parse_tree set_label add_comments) in RT; rewrite set_z_len in RT;
+      apply (IH k6 g2 _ link (Some ns) (Some (ns, m1)) title);
+      first [ reflexivity | apply nsok_some; rewrite RT; exact V2
+            | apply (wfs_mono c k2 g2); [exact W2 | rewrite RT; apply Nat.le_refl | reflexivity] ]. }
   destruct (otok_is (z_cur z1) K_BEGIN); ynorm; [reflexivity|].
-  apply IH. exact MO.
+  apply IH; [exact MO | exact W1 | exact N1].
 Qed.
 
 Notation GCON := (g_consume_to_end_of_block T upper).
@@ -195,10 +214,11 @@ Qed.
 
 (* ---- _yield_from_trees_block ---- *)
 Theorem g_yield_from_trees_block_eq : forall fuel k g tls reg,
+  wfs k g ->
   g_yield_from_trees_block T lower upper parse_tree set_label add_comments c et fuel (mkRs k g tls reg)
   = ymap (fun r => (tt, mkRs (fst r) (snd r) tls reg)) (MYB fuel k g).
 Proof.
-  intros fuel k g tls reg. unfold g_yield_from_trees_block, y_trees_block, tk_cast_ucase. sim.
+  intros fuel k g tls reg WF. unfold g_yield_from_trees_block, y_trees_block, tk_cast_ucase. sim.
   rewrite ybind_lift. cbv beta iota zeta.
   set (z0 := cast_ucase upper (k_z k)).
   change (o_eq (z_cur z0) (s2z "TREES")) with (tok_is z0 K_TREES).
@@ -210,7 +230,8 @@ Proof.
     destruct (consume_to_end_of_block upper fuel (z_cur z0) z0); reflexivity. }
   unfold tk_skip_to_semicolon, zstep. sim. change (k_z (set_z k z0)) with z0. rewrite !ybind_lift.
   destruct (skip_to_semicolon fuel z0) as [z1| |]; sim; try reflexivity.
-  pose proof (g_ytrees_loop_eq tls reg fuel (set_z (set_z k z0) z1) g (z_cur z0) None None None None I) as L.
+  pose proof (g_ytrees_loop_eq tls reg fuel (set_z (set_z k z0) z1) g (z_cur z0) None None None None I
+                (wfs_mono c k g _ g WF (Nat.le_refl _) eq_refl) (nsok_none _)) as L.
   cbn [option_map] in L.
   destruct (g_yield_from_trees_block_loop1 T lower upper parse_tree set_label add_comments c fuel
               (mkRs (set_z (set_z k z0) z1) g tls reg) (z_cur z0) None None None None) as [out [[[[[[s2 a] b] d] e] h]| |]];
@@ -241,10 +262,11 @@ Notation GYB := (g_yield_items_from_stream_loop1 T lower upper parse_tree set_la
 Notation MYBL := (y_blocks_loop T lower upper parse_tree set_label add_comments true c et).
 
 Lemma g_yblocks_loop_eq : forall tls reg fuel k g tok,
+  wfs k g ->
   ymap fst (GYB fuel (mkRs k g tls reg) tok)
   = ymap (fun r => mkRs (fst r) (snd r) tls reg) (MYBL fuel k g).
 Proof.
-  intros tls reg; induction fuel as [|f IH]; intros k g tok; [reflexivity|].
+  intros tls reg; induction fuel as [|f IH]; intros k g tok WF; [reflexivity|].
   cbn [g_yield_items_from_stream_loop1 y_blocks_loop]. unfold tk_is_eof. sim.
   destruct (negb (z_eof (k_z k))); [|reflexivity].
   unfold block_head, zstep, tk_next_token_ucase, tk_lift. sim.
@@ -263,15 +285,21 @@ Proof.
   set (k4 := set_z (set_z (set_z (set_z k z1) z2) (clear_comments z2)) z4).
   change (set_z (set_z (set_z k z2) (clear_comments z2)) z4) with k4.
   change (k_z k4) with z4.
+  assert (W4 : wfs k4 g) by (apply (wfs_mono c k g); [exact WF | apply Nat.le_refl | reflexivity]).
+  assert (W4r : wfr T c (mkRs k4 g tls reg)) by exact W4.
+  assert (WK : forall z, wfs (set_z k4 z) g)
+    by (intros z0; apply (wfs_mono c k4 g); [exact W4 | apply Nat.le_refl | reflexivity]).
   change (o_eq (z_cur z4) (s2z "TAXA")) with (otok_is (z_cur z4) K_TAXA).
   change (o_eq (z_cur z4) (s2z "TREES")) with (otok_is (z_cur z4) K_TREES).
   change (o_eq (z_cur z4) (s2z "BEGIN")) with (otok_is (z_cur z4) K_BEGIN).
   destruct (otok_is (z_cur z4) K_TAXA).
-  { rewrite g_parse_taxa_block_eq. unfold ifc_parse_taxa_block. sim. ynorm.
-    destruct (parse_taxa_block lower upper c (S f) k4 g) as [[k5 g5]| |]; sim; try reflexivity. ynorm. apply IH. }
+  { rewrite g_parse_taxa_block_eq by exact W4r. unfold ifc_parse_taxa_block. sim. ynorm.
+    destruct (parse_taxa_block lower upper c (S f) k4 g) as [[k5 g5]| |] eqn:PB; sim; try reflexivity. ynorm. apply IH.
+    exact (parse_taxa_block_wf lower upper c _ _ _ _ _ W4 PB). }
   destruct (otok_is (z_cur z4) K_TREES).
-  { rewrite !ybind_assoc, g_yield_from_trees_block_eq, ybind_ymap, !ymap_ybind.
-    apply ybind_ext. intros [k5 g5]. ynorm. apply IH. }
+  { rewrite !ybind_assoc, g_yield_from_trees_block_eq, ybind_ymap, !ymap_ybind by exact W4.
+    apply ybind_ext_at. intros out5 [k5 g5] TB. ynorm. apply IH.
+    exact (y_trees_block_wf T lower upper parse_tree set_label add_comments true c et _ _ _ _ _ _ W4 TB). }
   destruct (otok_is (z_cur z4) K_BEGIN); [ynorm; reflexivity|].
   rewrite !ybind_assoc.
   pose proof (g_consume_to_end_of_block_eq T upper (S f) (mkRs k4 g tls reg) (z_cur z4)) as L. revert L.
@@ -279,16 +307,17 @@ Proof.
   destruct (GCON (S f) (mkRs k4 g tls reg) (z_cur z4)) as [[t s']| |];
     destruct (consume_to_end_of_block upper (S f) (z_cur z4) z4) as [z5| |]; sim; intros L;
     try discriminate L; try (injection L as ->; reflexivity); try reflexivity.
-  injection L as ->. ynorm. apply IH.
+  injection L as ->. ynorm. apply IH. apply (WK z5).
 Qed.
 
 
 Theorem g_yield_items_from_stream_eq : forall fuel k g tls reg,
+  wfs k g ->
   g_yield_items_from_stream T lower upper parse_tree set_label add_comments c et fuel (mkRs k g tls reg) tt
   = ymap (fun r => (tt, mkRs (fst r) (snd r) tls reg))
          (y_items_from_stream T lower upper parse_tree set_label add_comments true c et fuel k g).
 Proof.
-  intros fuel k g tls reg.
+  intros fuel k g tls reg WF.
   unfold g_yield_items_from_stream, y_items_from_stream, ifc_open_stream, tk_require_next_token, tk_lift, zstep.
   rewrite ybind_lift_ok. cbv beta iota zeta. sim.
   destruct (require_next_token (k_z k)) as [z1| |] eqn:R; sim; try reflexivity.
@@ -296,7 +325,8 @@ Proof.
   change (k_z (set_z k z1)) with z1. rewrite (require_some _ _ R). cbn [o_upper o_eq otok_is].
   change (s2z "#NEXUS") with K_NEXUS.
   destruct (negb (str_eqb (upper (cur_text z1)) K_NEXUS)); [reflexivity|]. rewrite ybind_ret.
-  pose proof (g_yblocks_loop_eq tls reg fuel (set_z k z1) g (Some (cur_text z1))) as L.
+  pose proof (g_yblocks_loop_eq tls reg fuel (set_z k z1) g (Some (cur_text z1))
+                (wfs_mono c k g _ g WF (Nat.le_refl _) eq_refl)) as L.
   destruct (g_yield_items_from_stream_loop1 T lower upper parse_tree set_label add_comments c et fuel
               (mkRs (set_z k z1) g tls reg) (Some (cur_text z1))) as [out [[s' t']| |]];
     destruct (y_blocks_loop T lower upper parse_tree set_label add_comments true c et fuel (set_z k z1) g) as [out' [[k2 g2]| |]];
